@@ -231,7 +231,7 @@ func c13NoAttachDeleted(c *Ctx) *RuleResult {
 		for _, g := range flattenGuards(GuardsOf(info, u.Decl.Body, call)) {
 			s := exprStr(g.Cond)
 			switch {
-			case !g.Pos && s == recv+".isDeleted":
+			case !g.Pos && s == recv+"."+p.LookupField(virtualPkg, "inMemoryDirectoryContents", "isDeleted").Name():
 				okG, why = true, "!isDeleted"
 			case g.Pos && guardIdentSource(u, g) != nil:
 				// ok from a lookup in the same contents
